@@ -51,7 +51,8 @@ func (g *genState) style(k int, inline bool, depth int) (css string, isInlineBlo
 		fmt.Fprintf(&sb, "outline:%dpx solid %s;", r.Range(1, 2), colour(codeBase+4*k+3))
 		g.tag("outline")
 	}
-	if r.Chance(1, 10) {
+	overflow := r.Chance(1, 9)
+	if !overflow && r.Chance(1, 10) { // (the clip of an overflow box is recognised by its padding box: keep it distinct from the border box)
 		sb.WriteString("border-width:0;")
 	}
 	// display
@@ -134,7 +135,7 @@ func (g *genState) style(k int, inline bool, depth int) (css string, isInlineBlo
 		}
 		g.tag("transform")
 	}
-	if r.Chance(1, 9) {
+	if overflow {
 		sb.WriteString("overflow:" + vlib.Pick(r, []string{"hidden", "hidden", "auto", "scroll"}) + ";")
 		g.tag("overflow")
 		if !positioned {
